@@ -32,6 +32,10 @@ pub struct CacheSpec {
 pub struct Eval {
     pub party: u8,
     pub prefix: String,
+    /// the prefix is handed over as a bit vector that starts `offset` bits into its storage word
+    /// (a legal `IdpfInput::from(BitVec)`; logically equal to the aligned input)
+    #[serde(default)]
+    pub offset: u8,
 }
 
 #[derive(Clone, Debug, Serialize, Deserialize, PartialEq)]
@@ -206,7 +210,7 @@ fn gen(seed: u64, tier: Tier) -> Plan6 {
         for party in 0..2u8 {
             let mut a = all.clone();
             rng.shuffle(&mut a);
-            evals.extend(a.into_iter().map(|prefix| Eval { party, prefix }));
+            evals.extend(a.into_iter().map(|prefix| Eval { party, prefix, offset: 0 }));
         }
         if rng.chance(1, 2) {
             rng.shuffle(&mut evals);
@@ -255,11 +259,12 @@ fn gen(seed: u64, tier: Tier) -> Plan6 {
             };
             recent.push(p.clone());
             // usually both parties evaluate the same prefix (so the sum can be checked)
+            let off = |rng: &mut Rng| if rng.chance(1, 4) { 1 + rng.below(70) as u8 } else { 0 };
             if rng.chance(4, 5) {
-                evals.push(Eval { party: 0, prefix: p.clone() });
-                evals.push(Eval { party: 1, prefix: p });
+                evals.push(Eval { party: 0, prefix: p.clone(), offset: off(rng) });
+                evals.push(Eval { party: 1, prefix: p, offset: off(rng) });
             } else {
-                evals.push(Eval { party: rng.below(2) as u8, prefix: p });
+                evals.push(Eval { party: rng.below(2) as u8, prefix: p, offset: off(rng) });
             }
         }
     }
@@ -325,7 +330,20 @@ where
                 ctx.fault("cache_replaced_by_fresh");
             }
         }
-        let prefix = IdpfInput::from_bools(&str_bools(&e.prefix));
+        let prefix = if e.offset == 0 {
+            IdpfInput::from_bools(&str_bools(&e.prefix))
+        } else {
+            // same bits, stored `offset` bits into the first storage word
+            let mut bv: BitVec<usize, Lsb0> = BitVec::new();
+            for i in 0..e.offset as usize {
+                bv.push(i % 3 == 0);
+            }
+            for b in str_bools(&e.prefix) {
+                bv.push(b);
+            }
+            ctx.probe("unaligned_prefix_storage");
+            IdpfInput::from(bv[e.offset as usize..].to_bitvec())
+        };
         ctx.events += 1;
         let with_cache = guard("Idpf::eval", || idpf.eval(party, &public, &keys[party], &prefix, &p.ctx.0, &p.nonce.0, caches[party].as_mut()));
         let without = guard("Idpf::eval", || idpf.eval(party, &public, &keys[party], &prefix, &p.ctx.0, &p.nonce.0, &mut NoCache::new()));
